@@ -340,6 +340,18 @@ def run_case(out, n, plabel, variant, A0, Ad, stored, sub, given, seed):
                 wz = -Ad[np.ix_(Iz, Dset)].astype(float) @ xc[Dset]
                 if bcz.shape != wz.shape or np.abs(bcz - wz).max(initial=0) > 1e-13 * (1 + np.abs(wz).max(initial=0)):
                     bad('condense', 'rhs-omitted-b', "condense(A, x=x, D) without b and complex x: rhs is not -A[I,D]x[D]", fname)
+                # a complex SYSTEM with the prescribed values omitted: zero of the system's dtype, nothing lost in the expansion
+                if nonsing:
+                    zc = 1.0 + 0.5j
+                    Acx = sp.csr_matrix(A0.toarray() * zc)
+                    bcx = b0 * (2.0 - 1.0j)
+                    ycx = np.asarray(solve(*condense(Acx, bcx, **kw)))
+                    Irx = np.setdiff1d(full, Dset)
+                    rcx = (Acx.toarray() @ ycx - bcx)[Irx]
+                    if not np.iscomplexobj(ycx) or np.abs(ycx[Dset]).max(initial=0) > 0 or \
+                            np.abs(rcx).max(initial=0) > 1e-8 * (1 + np.abs(ycx).max()) * (1 + np.abs(Ad).max()):
+                        bad('condense+solve', 'complex-system-x-omitted', "complex system, x omitted: the expanded solution is not complex / "
+                            "not zero on the constrained indices / violates the kept equations", fname)
             except Exception as e:
                 bad('condense', 'dtype-exception', repr(e), fname)
         # matrix rhs (generalised eigenproblem) + expansion with a stub solver
@@ -398,6 +410,28 @@ def run_case(out, n, plabel, variant, A0, Ad, stored, sub, given, seed):
                         chk_solution(out, bad, 'enforce+solve', y, Ad, b0, x0, Iset, Dset, fname)
                     except Exception as e:
                         bad('enforce+solve', 'exception', repr(e), fname)
+        # overwrite=True: the arguments themselves hold the constrained system afterwards (vector and matrix right-hand side)
+        try:
+            A = A0.copy()
+            b = b0.copy()
+            Mm = M0.copy()
+            enforce(A, b, x=x0.copy(), overwrite=True, **kw)
+            want = Ad.astype(float).copy()
+            want[Dset] = 0
+            want[Dset, Dset] = 1.0
+            wb = b0.copy()
+            wb[Dset] = x0[Dset]
+            if not np.array_equal(A.toarray(), want) or not np.array_equal(b, wb):
+                bad('enforce', 'overwrite-in-place', "enforce(..., overwrite=True) did not leave the constrained system in its arguments A, b", fname)
+            A = A0.copy()
+            enforce(A, Mm, overwrite=True, **kw)
+            wantM = Md.astype(float).copy()
+            wantM[Dset] = 0
+            if not np.array_equal(A.toarray(), want) or not np.array_equal(Mm.toarray(), wantM):
+                bad('enforce-eig', 'overwrite-in-place', "enforce(A, M, overwrite=True) did not leave the constrained pair in its arguments "
+                    "(the caller's M keeps its constrained rows)", fname)
+        except Exception as e:
+            bad('enforce', 'overwrite-exception', repr(e), fname)
         # every optional argument omitted: diag = 1, nothing overwritten, zero prescribed values
         try:
             A = A0.copy()
